@@ -65,6 +65,7 @@ type Stream struct {
 		term   drpcsignal.Signal // set when the stream is terminating and no new ops should begin
 		fin    drpcsignal.Signal // set when the stream is finished and all ops are complete
 		cancel drpcsignal.Signal // set when externally canceled
+		local  drpcsignal.Signal // set when canceled by the local side with Cancel
 	}
 }
 
@@ -314,6 +315,18 @@ func (s *Stream) checkCancelError(err error) error {
 	return err
 }
 
+// checkCancelWaiting returns the cancel error for a send that started while
+// the send side was open and then found the stream canceled by Cancel once it
+// got hold of the write lock: it was blocked behind another send when the
+// cancel happened, and reports it like the send that was blocked in the
+// transport does. Sends that start after the cancel keep getting io.EOF.
+func (s *Stream) checkCancelWaiting(started bool) error {
+	if started && s.sigs.local.IsSet() {
+		return s.sigs.local.Err()
+	}
+	return nil
+}
+
 // newFrameLocked bumps the internal message id and returns a frame. It must be
 // called under a mutex.
 func (s *Stream) newFrameLocked(kind drpcwire.Kind) drpcwire.Frame {
@@ -367,10 +380,14 @@ func (s *Stream) terminate(err error) {
 // RawWrite sends the data bytes with the given kind.
 func (s *Stream) RawWrite(kind drpcwire.Kind, data []byte) (err error) {
 	defer s.checkFinished()
+	started := !s.sigs.send.IsSet()
 	s.write.Lock()
 	defer s.write.Unlock()
 	drpcdebug.Point("stream.rawwrite.locked", s.ctx.tr)
 
+	if err := s.checkCancelWaiting(started); err != nil {
+		return err
+	}
 	return s.rawWriteLocked(kind, data)
 }
 
@@ -493,10 +510,14 @@ func (s *Stream) MsgSend(msg drpc.Message, enc drpc.Encoding) (err error) {
 	s.flush.Do(func() {})
 
 	defer s.checkFinished()
+	started := !s.sigs.send.IsSet()
 	s.write.Lock()
 	defer s.write.Unlock()
 	drpcdebug.Point("stream.msgsend.locked", s.ctx.tr)
 
+	if err := s.checkCancelWaiting(started); err != nil {
+		return err
+	}
 	wbuf, err := drpcenc.MarshalAppend(msg, enc, s.wbuf[:0])
 	if err != nil {
 		return errs.Wrap(err)
@@ -669,6 +690,7 @@ func (s *Stream) Cancel(err error) bool {
 	}
 
 	s.sigs.cancel.Set(err)
+	s.sigs.local.Set(err)
 	s.sigs.send.Set(io.EOF) // in this state, gRPC returns io.EOF on send.
 	s.terminate(err)
 	return false
